@@ -90,6 +90,7 @@ type Explorer struct {
 	splitDepth  int // >0: end paths that need a new decision at this depth and record the prefix
 	prefixes    [][]PrefixStep
 	prefixLen   int  // forced decisions at the bottom of the stack (sub-job)
+	prefixFresh bool // the last prefix step is an alternative nobody explored yet (work stealing)
 
 	FanoutCap int
 	St        ExStats
@@ -125,7 +126,49 @@ func (ex *Explorer) atFrontier() bool { return ex.cursor >= len(ex.decisions) }
 
 // skipAsserts: in a sub-job the assertions up to the first decision after
 // the forced prefix were already checked by the splitting run.
-func (ex *Explorer) skipAsserts() bool { return ex.prefixLen > 0 && ex.cursor <= ex.prefixLen }
+func (ex *Explorer) skipAsserts() bool {
+	if ex.prefixLen == 0 {
+		return false
+	}
+	if ex.prefixFresh {
+		return ex.cursor < ex.prefixLen
+	}
+	return ex.cursor <= ex.prefixLen
+}
+
+// Donate gives away the unexplored alternatives of the shallowest open
+// decision: each becomes the prefix of a new sub-job, and this explorer will
+// not visit them. Returns nil if there is nothing to give.
+func (ex *Explorer) Donate() [][]PrefixStep {
+	for i := ex.prefixLen; i < len(ex.decisions)-1; i++ {
+		d := ex.decisions[i]
+		if d.pos+1 >= len(d.feasible) {
+			continue
+		}
+		base := make([]PrefixStep, i)
+		for j := 0; j < i; j++ {
+			dj := ex.decisions[j]
+			st := PrefixStep{Kind: dj.kind, NAlts: dj.nAlts, Alt: dj.feasible[dj.pos]}
+			if dj.kind == "concretize" {
+				st.Value = dj.values[st.Alt]
+			}
+			base[j] = st
+		}
+		var out [][]PrefixStep
+		for _, alt := range d.feasible[d.pos+1:] {
+			st := PrefixStep{Kind: d.kind, NAlts: d.nAlts, Alt: alt}
+			if d.kind == "concretize" {
+				st.Value = d.values[alt]
+			}
+			p := append(append([]PrefixStep{}, base...), st)
+			out = append(out, p)
+		}
+		d.feasible = d.feasible[:d.pos+1]
+		d.models = d.models[:d.pos+1]
+		return out
+	}
+	return nil
+}
 
 func (ex *Explorer) inconclusive(msg string) {
 	ex.inconc = append(ex.inconc, msg)
